@@ -185,6 +185,8 @@ def p9_length_bookkeeping(prog):
                 if not src_ok:
                     r.viol('P9', f.path + '/clone_from-length', f.loc(s['ln']), 'clone_from must set length to source.length')
                 walk = [cb for cb, ct in body.calls(lambda c: c['name'] == 'clone_from_components')]
+                if not body.must_pass(0, [b], body.return_blocks()) or (walk and not body.must_pass(0, walk, body.return_blocks())):
+                    r.viol('P9', f.path + '/clone_from-skippable', f.loc(s['ln']), 'a path through Archetype::clone_from returns without rebuilding the columns and publishing the length (e.g. a fast path for an empty source): the destination keeps its old rows')
                 if not walk or not all(body.dominates(w, b) for w in walk):
                     r.viol('P9', f.path + '/clone_from-order', f.loc(s['ln']), 'length is published before clone_from_components has rebuilt the columns')
             continue
